@@ -404,6 +404,26 @@ def _dep_text(d, attr, src):
     return False
 
 
+def _staterror_auxdata_after_override(repo, requirement):
+    """auxdata of the real constrained_by_normal set built from (requirement merged with an `inits` override); None if the chain
+    is not interpretable"""
+    from ..objmodel import World
+    PS_, PU_ = "src/pyhf/parameters/paramsets.py", "src/pyhf/parameters/utils.py"
+    try:
+        red = repo.func(PU_, "reduce_paramsets_requirements")
+        merged = Interp({"paramsets_requirements": {"stat": [dict(requirement)]}, "paramsets_user_configs": {"stat": {"inits": [Poly.atom("POSTFIT0"), Poly.atom("POSTFIT1")]}}, "exceptions": Obj("exceptions")}, {}, {}).run(A.strip_docstring(red.node.body))["stat"]
+        psm = repo.module(PS_)
+        w = World({"__strict__": True}, module_env={"pyhf": Obj("pyhf"), "exceptions": Obj("exceptions")})
+        for c_ in psm.classes.values():
+            w.add_class(c_)
+        kw = {k_: v_ for k_, v_ in merged.items() if k_ != "paramset_type"}
+        pset = w.new(psm.classes[merged["paramset_type"]], [], kw)
+        aux = pset.attrs.get("auxdata")
+        return [str(to_poly(x)) for x in aux] if isinstance(aux, (list, tuple)) else None
+    except Exception:  # noqa: BLE001 -- any failure: the structural reading below stands alone
+        return None
+
+
 def _staterror(ctx, rid, repo):
     rel = "src/pyhf/modifiers/staterror.py"
     fin = repo.method(rel, "staterror_builder", "finalize")
@@ -414,6 +434,14 @@ def _staterror(ctx, rid, repo):
     try:
         # s0 stands for a very precisely known bin (relative MC uncertainty 1e-6), s1 for an ordinary one
         out = Interp({"sigmas": [Poly.atom("s0"), Poly.atom("s1")], "fixed": [False, True]}, {}, {"s0": Fraction(1, 10 ** 6), "s1": Fraction(1, 20)}).run(A.strip_docstring(rp.node.body))
+        # the nominal auxiliary measurement of each gamma is 1 -- decided on what the PARAMETER SET ends up with when the measurement
+        # overrides the initial values (requirement -> merge with the override -> the real parameter-set class), wherever the 1 is declared
+        aux_final = _staterror_auxdata_after_override(repo, out)
+        if aux_final is not None and aux_final != ["1", "1"]:
+            ctx.violated(rid, rp, "staterror auxiliary data", "the auxiliary data of a staterror parameter are not the nominal 1 per bin once the measurement overrides the parameter's initial values (post-fit values, say): the constraint is then centred on the override", expected="['1', '1']", found=str(aux_final))
+            return
+        if "auxdata" not in out and aux_final == ["1", "1"]:
+            out = dict(out, auxdata=(Poly.const(1), Poly.const(1)))  # declared elsewhere along the chain, with the same outcome
         if [str(to_poly(x)) for x in out["sigmas"]] == ["s0", "s1"] and [to_poly(x) for x in out["auxdata"]] == [Poly.const(1)] * 2 and [to_poly(x) for x in out["inits"]] == [Poly.const(1)] * 2 and out["paramset_type"] == "constrained_by_normal" and list(out["fixed"]) == [False, True]:
             ctx.holds(rid, f"{rel}::required_parset", "Gaussian(aux = 1 | gamma, sigma_b), one component per bin")
         else:
